@@ -3,8 +3,22 @@ bourse.data_processing, recording which column name is bound to which tuple posi
 
 
 class Series:
-    def __init__(self, values):
-        self.values = list(values)
+    def __init__(self, values=None, dtype=None, name=None, index=None):
+        self.values = list(values) if values is not None else []
+        self.dtype = dtype
+        self.name = name
+
+    def astype(self, dtype):
+        return Series(self.values, dtype=dtype, name=self.name)
+
+    def copy(self):
+        return Series(self.values, dtype=self.dtype, name=self.name)
+
+    def apply(self, f):
+        return Series([f(v) for v in self.values])
+
+    def replace(self, m):
+        return Series([m.get(v, v) for v in self.values])
 
     def map(self, m):
         if callable(m):
@@ -28,11 +42,55 @@ class Series:
 
 class DataFrame:
     def __init__(self, data=None, columns=None):
+        if isinstance(data, DataFrame):
+            columns = list(columns or data.columns)
+            data = {c: data[c].values for c in columns}
+        if isinstance(data, dict) and columns is None:
+            columns = list(data.keys())
+        if isinstance(data, (list, tuple)) and data and not isinstance(data, dict):
+            df = DataFrame.from_records(data, columns=columns)
+            self.columns, self._data = df.columns, df._data
+            return
         self.columns = list(columns or [])
         self._data = {c: Series([]) for c in self.columns}
         if data:
             for c in self.columns:
                 self._data[c] = Series(list(data[c]))
+
+    # ---- the part of the pandas API a helper that only arranges columns may reasonably use ----
+    def astype(self, dtypes):
+        return self.copy()
+
+    def copy(self):
+        return DataFrame({c: list(self._data[c].values) for c in self.columns}, columns=list(self.columns))
+
+    def rename(self, columns=None, **kw):
+        m = columns or {}
+        f = m if callable(m) else (lambda c: m.get(c, c))
+        return DataFrame({f(c): list(self._data[c].values) for c in self.columns}, columns=[f(c) for c in self.columns])
+
+    def reindex(self, columns=None, **kw):
+        cols = list(columns)
+        n = len(self)
+        return DataFrame({c: (list(self._data[c].values) if c in self._data else [None] * n) for c in cols}, columns=cols)
+
+    def assign(self, **kw):
+        df = self.copy()
+        for c, v in kw.items():
+            df[c] = v(df) if callable(v) else v
+        return df
+
+    def drop(self, columns=None, **kw):
+        cols = [c for c in self.columns if c not in ([columns] if isinstance(columns, str) else list(columns or []))]
+        return DataFrame({c: list(self._data[c].values) for c in cols}, columns=cols)
+
+    @property
+    def empty(self):
+        return len(self) == 0
+
+    @property
+    def shape(self):
+        return (len(self), len(self.columns))
 
     @classmethod
     def from_records(cls, records, columns=None):
@@ -47,6 +105,8 @@ class DataFrame:
         return df
 
     def __getitem__(self, c):
+        if isinstance(c, (list, tuple)):
+            return DataFrame({x: list(self._data[x].values) for x in c}, columns=list(c))
         return self._data[c]
 
     def __setitem__(self, c, s):
